@@ -5,6 +5,8 @@ package main
 import (
 	"fmt"
 	"go/ast"
+	"go/constant"
+	"math/big"
 	"go/parser"
 	"go/token"
 	"go/types"
@@ -699,9 +701,6 @@ func localsAt(info *types.Info, decl *ast.FuncDecl, pos token.Pos) []*types.Var 
 	inner := fscope.Innermost(pos)
 	var out []*types.Var
 	for s := inner; s != nil && s != fscope.Parent(); s = s.Parent() {
-		if s == fscope {
-			break // parameters and results are added by the caller
-		}
 		for _, n := range s.Names() {
 			if v, ok := s.Lookup(n).(*types.Var); ok && v.Pos() < pos {
 				out = append(out, v)
@@ -709,4 +708,91 @@ func localsAt(info *types.Info, decl *ast.FuncDecl, pos token.Pos) []*types.Var 
 		}
 	}
 	return out
+}
+
+// constArrayInit: element values of a package-level array variable that has a constant composite
+// literal initialiser and is never assigned (or address-taken) anywhere in the loaded packages.
+func (p *Program) constArrayInit(v *types.Var) ([]*big.Int, bool) {
+	if _, ok := v.Type().Underlying().(*types.Array); !ok {
+		return nil, false
+	}
+	var lit *ast.CompositeLit
+	var info *types.Info
+	assigned := false
+	for _, pkg := range p.ByPath {
+		for _, f := range pkg.Syntax {
+			ast.Inspect(f, func(n ast.Node) bool {
+				isV := func(e ast.Expr) bool {
+					for {
+						switch x := e.(type) {
+						case *ast.IndexExpr:
+							e = x.X
+							continue
+						case *ast.ParenExpr:
+							e = x.X
+							continue
+						case *ast.SliceExpr:
+							e = x.X
+							continue
+						case *ast.Ident:
+							return pkg.TypesInfo.Uses[x] == v
+						case *ast.SelectorExpr:
+							return pkg.TypesInfo.Uses[x.Sel] == v
+						}
+						return false
+					}
+				}
+				switch s := n.(type) {
+				case *ast.ValueSpec:
+					for i, nm := range s.Names {
+						if pkg.TypesInfo.Defs[nm] == v && i < len(s.Values) {
+							if cl, ok := s.Values[i].(*ast.CompositeLit); ok {
+								lit = cl
+								info = pkg.TypesInfo
+							}
+						}
+					}
+				case *ast.AssignStmt:
+					for _, l := range s.Lhs {
+						if isV(l) {
+							assigned = true
+						}
+					}
+				case *ast.IncDecStmt:
+					if isV(s.X) {
+						assigned = true
+					}
+				case *ast.UnaryExpr:
+					if s.Op == token.AND && isV(s.X) {
+						assigned = true
+					}
+				case *ast.SliceExpr:
+					if isV(s.X) {
+						assigned = true // a slice of the array may be written through
+					}
+				}
+				return true
+			})
+		}
+	}
+	if lit == nil || assigned {
+		return nil, false
+	}
+	var out []*big.Int
+	for _, el := range lit.Elts {
+		tv, ok := info.Types[el]
+		if !ok || tv.Value == nil {
+			return nil, false
+		}
+		bi, ok := constant.Val(constant.ToInt(tv.Value)).(*big.Int)
+		if !ok {
+			i64, exact := constant.Int64Val(constant.ToInt(tv.Value))
+			if !exact {
+				return nil, false
+			}
+			bi = big.NewInt(i64)
+		}
+		out = append(out, bi)
+	}
+	return out, true
 }
